@@ -1035,3 +1035,39 @@ def local_search_replay(tables):
         choices, best, stats = search_local(Fake(), [(i + 1, nm) for i, nm in enumerate(names)], {s: 1.0}, [])
         out.append({"id": t["id"], "res": [int(choices[nm]) for nm in names], "best": int(round(best)), "evals": stats["eval"]})
     return {"results": out}
+
+
+# ------------------------------------------------------------------ C31 Bayesian network export
+def bn_export(text):
+    from problog.program import PrologString, ExtendedPrologFactory
+    from problog.parser import DefaultPrologParser
+    from problog.formula import LogicDAG
+    from problog.tasks.bayesnet import formula_to_bn
+    gp = LogicDAG.createFrom(PrologString(text, parser=DefaultPrologParser(ExtendedPrologFactory())),
+                             label_all=True, avoid_name_clash=False, keep_order=True, keep_all=False,
+                             keep_duplicates=False, hide_builtins=False)
+    bn = formula_to_bn(gp)
+    vs = [{"name": str(n), "values": [str(x) for x in v.values]} for n, v in bn.vars.items()]
+    fs = []
+    ok = True
+    for rv, f in bn.factors.items():
+        f = f.to_factor()
+        rows = []
+        det = True
+        for pv, probs in f.table.items():
+            nums = []
+            for x in probs:
+                t = round(float(x) * 10, 9)
+                if abs(t - round(t)) > 1e-6:
+                    ok = False
+                nums.append(int(round(t)))
+                if abs(float(x)) > 1e-12 and abs(float(x) - 1.0) > 1e-12:
+                    det = False
+            # parent values are used as dict keys by the tool: False/True and 0/1 are the same key in Python
+            rows.append({"pv": [str(int(x)) if isinstance(x, bool) else str(x) for x in pv], "p": nums})
+        if det:
+            for r in rows:
+                r["p"] = [1 if x == 10 else 0 for x in r["p"]]
+        fs.append({"rv": str(rv), "parents": [str(p) for p in f.parents], "rows": rows, "d": 1 if det else 10})
+    queries = [str(q) for q, n in gp.queries()]
+    return {"vars": vs, "factors": fs, "tenths": ok, "query_names": queries}
